@@ -600,7 +600,8 @@ pub fn run(ctx: &Ctx) -> i32 {
         probes.touch(k);
     }
     probes.add("singular_at_ge_k_prefixes", acc.singular);
-    if violations.is_empty() {
+    // (the skewed-clock slice is a tenth of a batch: rare session kinds may well be absent from it)
+    if violations.is_empty() && ctx.slice_rate.is_none() {
         for z in probes.zeros() {
             eprintln!("WARNING: C02 probe '{z}' never fired in this batch");
         }
